@@ -146,6 +146,7 @@ type batchCase struct {
 	option     kmip.BatchErrorContinuationOption // 0 unset
 	badVersion bool
 	badCount   bool
+	countDelta int // with badCount: announced count = items + countDelta (0: +1); may announce FEWER items than carried
 	withIDs    bool
 	supported  []kmip.ProtocolVersion // nil: the executor's default set
 	version    *kmip.ProtocolVersion  // nil: 1.4 (or 2.0 when badVersion)
@@ -159,6 +160,9 @@ func (b batchCase) String() string {
 	v := ""
 	if b.version != nil {
 		v = fmt.Sprintf(" version=%d.%d supported=%v", b.version.ProtocolVersionMajor, b.version.ProtocolVersionMinor, b.supported)
+	}
+	if b.badCount && b.countDelta != 0 {
+		v += fmt.Sprintf(" announced=items%+d", b.countDelta)
 	}
 	return fmt.Sprintf("items=[%s] option=%d unsupportedVersion=%v countMismatch=%v ids=%v%s", strings.Join(o, ","), b.option, b.badVersion, b.badCount, b.withIDs, v)
 }
@@ -209,7 +213,11 @@ func buildRequest(b batchCase, reqID string, r *core.Rand) *kmip.RequestMessage 
 	}
 	m.Header.BatchCount = int32(len(b.outcomes))
 	if b.badCount {
-		m.Header.BatchCount++
+		d := b.countDelta
+		if d == 0 || len(b.outcomes)+d < 0 {
+			d = 1
+		}
+		m.Header.BatchCount += int32(d)
 	}
 	return m
 }
@@ -417,7 +425,7 @@ func Spec() *core.Spec {
 			"x continuation option {unset, Continue, Stop, Undo} x {supported, unsupported} version x {matching, mismatching} batch count x with/without item ids, through BatchExecutor.HandleRequest with instrumented handlers; " +
 			"seeded random batches of up to 40 items; a sample sent through a real server connection so ids and counts cross the wire. Compared with a 30-line reference model (item count/order/echo, counts, version, success/failure, handler trace). " +
 			"all 31 supported-version sets x 11 request versions (inside, in gaps, outside); sequences of 3-8 requests on ONE executor (versions 1.0-1.4, built-in Discover Versions with client sub-lists, handlers cancelling the request context mid-batch); distinct = distinct (batch description, path) combinations",
-		Required: []string{"sequence_requests", "sequence_requests.context-cancelled-mid-batch", "versions.supported", "versions.unsupported.in-a-gap", "batches.direct", "batches.wire", "rejected_requests"},
+		Required: []string{"wire_pipelined_groups", "count_mismatch.fewer-announced", "sequence_requests", "sequence_requests.context-cancelled-mid-batch", "versions.supported", "versions.unsupported.in-a-gap", "batches.direct", "batches.wire", "rejected_requests"},
 		Families: []core.Family{
 			{Name: "exhaustive", Exhaustive: true, N: func(tier string) int {
 				if tier == core.Thorough {
@@ -494,7 +502,10 @@ func Spec() *core.Spec {
 				return 3000
 			}, Run: func(c *core.Ctx, r *core.Rand, i int) {
 				n := 1 + r.Intn(40)
-				b := batchCase{option: options[r.Intn(4)], badVersion: r.P(1, 10), badCount: r.P(1, 10), withIDs: r.Bool()}
+				b := batchCase{option: options[r.Intn(4)], badVersion: r.P(1, 10), badCount: r.P(1, 10), withIDs: r.Bool(), countDelta: []int{1, -1, -2, 3, -n}[r.Intn(5)]}
+				if b.badCount && b.countDelta < 0 {
+					c.Count("count_mismatch.fewer-announced", 1)
+				}
 				for k := 0; k < n; k++ {
 					if r.P(2, 3) {
 						b.outcomes = append(b.outcomes, oSuccess)
@@ -523,28 +534,44 @@ func Spec() *core.Spec {
 					panic(err)
 				}
 				st := ttlv.NewStream(conn, 0)
-				for k := 0; k < 20; k++ {
-					n := r.Intn(5)
-					b := batchCase{option: options[r.Intn(4)], badVersion: r.P(1, 8), badCount: r.P(1, 8), withIDs: r.Bool()}
-					for j := 0; j < n; j++ {
-						b.outcomes = append(b.outcomes, outcome(r.Intn(int(nOutcomes))))
+				type sent struct {
+					b   batchCase
+					req *kmip.RequestMessage
+					s   *script
+				}
+			outer:
+				for k := 0; k < 20; {
+					// 1-3 requests are written back to back before any response is read (pipelining)
+					var group []sent
+					for p, np := 0, 1+r.Intn(3); p < np && k < 20; p, k = p+1, k+1 {
+						n := r.Intn(5)
+						b := batchCase{option: options[r.Intn(4)], badVersion: r.P(1, 8), badCount: r.P(1, 8), withIDs: r.P(2, 3)}
+						for j := 0; j < n; j++ {
+							b.outcomes = append(b.outcomes, outcome(r.Intn(int(nOutcomes))))
+						}
+						reqID := fmt.Sprintf("w%d-%d", i, k)
+						s := &script{outcomes: b.outcomes, panicIdx: k}
+						mu.Lock()
+						scripts[reqID] = s
+						mu.Unlock()
+						req := buildRequest(b, reqID, r)
+						if err := st.Send(req); err != nil {
+							c.Inconclusive("wire: send failed: " + err.Error())
+							break outer
+						}
+						group = append(group, sent{b, req, s})
 					}
-					reqID := fmt.Sprintf("w%d-%d", i, k)
-					s := &script{outcomes: b.outcomes, panicIdx: k}
-					mu.Lock()
-					scripts[reqID] = s
-					mu.Unlock()
-					req := buildRequest(b, reqID, r)
-					if err := st.Send(req); err != nil {
-						c.Inconclusive("wire: send failed: " + err.Error())
-						break
+					if len(group) > 1 {
+						c.Count("wire_pipelined_groups", 1)
 					}
-					var resp kmip.ResponseMessage
-					if err := st.Recv(&resp); err != nil {
-						c.Violation("C09:wire:no-response", fmt.Sprintf("no response over the connection: %v (%s)", err, b), nil)
-						break
+					for _, g := range group {
+						var resp kmip.ResponseMessage
+						if err := st.Recv(&resp); err != nil {
+							c.Violation("C09:wire:no-response", fmt.Sprintf("no response over the connection: %v (%s)", err, g.b), nil)
+							break outer
+						}
+						check(c, g.b, g.req, &resp, g.s, "wire")
 					}
-					check(c, b, req, &resp, s, "wire")
 				}
 				conn.Close()
 				srv.Shutdown()
